@@ -145,6 +145,37 @@ reg('C20', 'model_checking',
     'Trusted: refpgp.msg grammar recogniser and packet parsers (validated at setup against GnuPG-made fixture messages).',
     'exhaustive configuration enumeration on the real builder / exporter / importer vs. independent grammar recogniser', 'DESIGN.md 2/C20')
 
+reg('C15', 'model_checking',
+    'Breadth-first explicit-state search over key-management histories on real PGPKey objects: 20 operations (add identity / image, add signing / encryption '
+    'subkey, re-certify with new preferences, same-second re-certification, third-party certification, revoke identity / subkey / key, designated revoker, '
+    'direct-key signature, delete identity, protect, derive public key, copy, export-import) from Ed25519 / P-256 / RSA-2048 roots, every successor rebuilt by '
+    'replaying the history on fresh objects under a virtual clock, deduplicated on a canonical export; a reference model runs in lock-step and in every state '
+    'the invariant is evaluated on the private key, the public twin and the re-imported public key: every self-signature, binding, embedded cross-signature and '
+    'revocation verifies under the reference and under key.verify(key); identities / subkeys / revocation placement equal the model; effective flags, '
+    'preferences, primary mark and expiry equal the most recent self-certification; fingerprint unchanged; twin equals private key.',
+    'Depth 3 (Ed25519), 2 (P-256, RSA) in quick; 4 / 3 / 2 in thorough. "Most recent" is restricted to self-certifications of non-revoked identities; same-second '
+    'ties accept any tied signature.',
+    'explicit-state BFS over operation histories on the real objects with a lock-step reference model', 'DESIGN.md 2/C15')
+
+reg('C07', 'model_checking',
+    'The same history search with the public-export invariant in every state - on the fresh public twin, on twins derived earlier in the history and kept alive, '
+    'and on the export loaded back: only packet tags 6, 14, 13, 17, 2 in binary and armored export, equality with the private key in fingerprint, identities, '
+    'subkeys and exportable signatures, no secret-integer octets in the export, no secret reachable in the object graph, sign / certify / revoke / revoker / bind / '
+    'decrypt / add_subkey refuse, protect / unlock leave the object public; plus all 8 C06 key sets in unprotected / locked / unlocked (twin derived inside the '
+    'unlock scope) / locked-again form.',
+    'Secret needles: every secret integer of >= 8 octets and every secret MPI block of the fixture material.',
+    'explicit-state BFS over operation histories on the real objects, invariant in every state', 'DESIGN.md 2/C07')
+
+reg('C14', 'model_checking',
+    'Transferable keys written by an independent encoder over the shape product (1-3 user ids x image attribute x 0-2 subkeys of differing algorithms x 1-2 '
+    'self-signatures x third-party certification {none, exportable absent / true / false} x identity revocation x {direct-key signature, designated revoker, key / '
+    'subkey revocation} x equal creation times x interleaved trust packets x public / secret; quick takes every second element of the inner product, thorough all), '
+    'concatenations of 2-3 keys in every order, and every state of the key-history search: after import -> export (binary, then armored) fingerprint, key material, '
+    'identities and the per-component multiset of exportable signatures are unchanged, every signature still verifies (reference and PGPy), non-exportable '
+    'certifications and only those are dropped, and a copy exports identical octets.',
+    'Signatures are compared by (type, algorithms, hashed area, integers), not by framing. Reference-made keys are first checked by the reference itself.',
+    'exhaustive shape enumeration + explicit-state BFS on the real importer / exporter vs. independent parser', 'DESIGN.md 2/C14')
+
 ALL = ['C%02d' % i for i in range(1, 21)]
 
 NOT_YET = 'check not built yet in this revision of /verif (work in progress; see DESIGN.md section 8)'
